@@ -520,6 +520,7 @@ def run_check(prop, tier, seed, replay=None):
     rc = 0
     seen = set()
     nknown = 0
+    nrep = 0
     for f in failures + crashes:
         sig = signature(f)
         k = match_known(prop, sig, known)
@@ -543,7 +544,8 @@ def run_check(prop, tier, seed, replay=None):
                 open(p, 'w').write('# ' + f.get('msg', '') + '\n# ' + f.get('detail', '').replace('\n', '\n# ') + '\n')
             cov['model_findings'].append(dict(msg=f['msg'], path=f.get('path', [])[-2:]))
         else:
-            if sum(1 for s_ in seen if s_[0] != 'k') >= 40:      # enough replay files for one run
+            nrep += 1
+            if nrep > 40:      # enough replay files for one run
                 rc = 1
                 continue
             p = write_replay(prop, kind, f, 'props=%d q=1' % cfg.get('plevel', 1))
